@@ -68,7 +68,7 @@ static const char * ctl_ptname(int pt) {
     N(ONCE_WAIT_READ) N(JOIN_LOCKED) N(JOIN_CB_SET) N(JOIN_SPIN) N(JOIN_REAP) N(FIN_BEGIN) N(FIN_LOCKED)
     N(FIN_STACK_FREE) N(FIN_PUBLISH) N(DETACH_FAST) N(DETACH_LOCKED) N(TRYJOIN_LOCKED) N(CREATE_BEGIN)
     N(CREATE_1) N(CREATE_PUSHED) N(DESC_GET) N(DESC_FREE) N(STACK_GET) N(STACK_FREE) N(YIELD_CB)
-    N(TLS_NODE_ALLOC) N(TLS_NODE_FREE) N(TLS_KEY_CAS_ALLOC) N(TLS_KEY_CAS_DEALLOC)
+    N(CTX_CALLBACK) N(FE_WAL_BEGIN) N(FE_WAL_CHECK) N(FE_MARK) N(TLS_NODE_ALLOC) N(TLS_NODE_FREE) N(TLS_KEY_CAS_ALLOC) N(TLS_KEY_CAS_DEALLOC)
 #undef N
   default: return "PT?";
   }
@@ -229,8 +229,8 @@ static void ctl_init(int nworkers) {
   ctl_rng = ctl_rng * 0x9E3779B97F4A7C15ULL + 12345;
   if ((s = getenv("CTL_SWITCH_DEN"))) ctl_switch_den = atoi(s) > 0 ? atoi(s) : 4;
   if ((s = getenv("CTL_SPIN_LIMIT"))) ctl_spin_limit = atol(s);
-  if ((s = getenv("CTL_LOG"))) ctl_log = fopen(s, "w");
-  if ((s = getenv("CTL_SCHED_OUT"))) ctl_sched_out = fopen(s, "w");
+  if ((s = getenv("CTL_LOG"))) { ctl_log = fopen(s, "w"); if (ctl_log) setvbuf(ctl_log, 0, _IOLBF, 0); }       /* line buffered: survives a crash */
+  if ((s = getenv("CTL_SCHED_OUT"))) { ctl_sched_out = fopen(s, "w"); if (ctl_sched_out) setvbuf(ctl_sched_out, 0, _IOLBF, 0); }
   if ((s = getenv("CTL_REPLAY"))) {
     FILE * f = fopen(s, "r");
     if (f) {
